@@ -101,15 +101,23 @@ func (v *Vue) evalSlot(ctx VueContext, node *html.Node, slotScope *SlotScope) ([
 					}
 				}
 
-				// Evaluate the template content (children of the template)
-				children, err := v.evaluateChildren(ctx, slotContent.TemplateNode, 0)
+				// Evaluate a copy of the template content (children of the template), once per use of the slot
+				children, err := v.evaluateChildren(ctx, helpers.DeepCloneNode(slotContent.TemplateNode), 0)
 				if err != nil {
 					return nil, err
 				}
 				result = append(result, children...)
 			} else {
-				// Use the provided content as-is
-				result = append(result, slotContent.Nodes...)
+				// Evaluate a copy of the provided content, once per use of the slot
+				nodes := make([]*html.Node, 0, len(slotContent.Nodes))
+				for _, n := range slotContent.Nodes {
+					nodes = append(nodes, helpers.DeepCloneNode(n))
+				}
+				children, err := v.evaluate(ctx, nodes, 0)
+				if err != nil {
+					return nil, err
+				}
+				result = append(result, children...)
 			}
 
 			return result, nil
